@@ -419,7 +419,7 @@ CheckApi(i) ==
 CheckDepth(i) ==
   LET e == Ev[i]
       p == e.pat
-  IN /\ IF MustAccept(p) => e.res = "ok" THEN TRUE ELSE Report(i, "depth-must-accept", [pat |-> p, res |-> e.res]) /\ FALSE
+  IN /\ IF (MustAccept(p) \/ MustAcceptAt(p, e.L)) => e.res = "ok" THEN TRUE ELSE Report(i, "depth-must-accept", [pat |-> p, res |-> e.res]) /\ FALSE
      /\ IF e.res = "err" => e.limit_err THEN TRUE ELSE Report(i, "depth-not-a-limit-error", [pat |-> p]) /\ FALSE
      /\ IF e.res \in {"ok", "err"} THEN TRUE ELSE Report(i, "depth-panic", [pat |-> p, res |-> e.res]) /\ FALSE
      /\ e.res = "ok" =>
